@@ -372,12 +372,13 @@ def _(a, b, result):
     return result[0] == (a < b) and result[1] == (a == b)
 
 
-@c_cmp.ensures('blank-compares-as-empty-text-or-zero', 'P')
+@c_cmp.ensures('blank-compares-as-empty-text-false-or-zero', 'P')
 def _(a, b, result):
     if first_err(a, b) is not None or not (a is sh.EMPTY or b is sh.EMPTY):
         return True
-    x = a if a is not sh.EMPTY else ('' if is_text(b) else 0)
-    y = b if b is not sh.EMPTY else ('' if is_text(a) else 0)
+    # a blank takes the kind of the other operand: "" against text, FALSE against a logical, 0 otherwise
+    x = a if a is not sh.EMPTY else ('' if is_text(b) else (False if isinstance(b, bool) else 0))
+    y = b if b is not sh.EMPTY else ('' if is_text(a) else (False if isinstance(a, bool) else 0))
     if x is sh.EMPTY or y is sh.EMPTY:      # both blank: equal
         return result[1] is True
     if rank(x) != rank(y):
@@ -438,7 +439,7 @@ from pyvc.bounded import Stage
 import re as _re
 
 _ERRS = ['#NULL!', '#DIV/0!', '#VALUE!', '#REF!', '#NAME?', '#NUM!', '#N/A']
-_POOL = [0, 1, -1, 0.0, 1.0, -1.0, 0.5, 1.15, -2.5, 1e200, -1e200, 1e-200, 3, 'TXT:1', 'TXT: 1 ', 'TXT:-2.5', 'TXT:1e3', 'TXT:a', 'TXT:A',
+_POOL = [0, 1, -1, 0.0, 1.0, -1.0, 0.5, 1.15, -2.5, 1e200, -1e200, 1e-200, 3, 'TXT:1', 'TXT: 1 ', 'TXT:-2.5', 'TXT:1e3', 'TXT:.5', 'TXT:5.', 'TXT:+2E+1', 'TXT:a', 'TXT:A',
          'TXT:abc', 'TXT:1a', 'TXT:', True, False, 'BLANK'] + ['ERR:' + e for e in _ERRS]
 _BIN = ['+', '-', '*', '/', '^', '&', '=', '<>', '<', '>', '<=', '>=']
 
@@ -495,7 +496,9 @@ def _spec_display(v):
 
 def _spec_key(v, other):
     if v is sh.EMPTY:
-        v = '' if (isinstance(other, str) and other is not sh.EMPTY and not isinstance(other, XlError)) else 0
+        # a blank takes the kind of the other operand: "" against text, FALSE against a logical, 0 otherwise
+        v = ('' if (isinstance(other, str) and other is not sh.EMPTY and not isinstance(other, XlError))
+             else (False if isinstance(other, bool) else 0))
     if isinstance(v, bool):
         return (2, v)
     if isinstance(v, str):
